@@ -177,22 +177,26 @@ func c15r2(c *Ctx, id string) {
 			})
 			okStore := false
 			if store != nil {
-				// reachable only via err==nil or the StatusKeyNotFound comparison
-				for _, p := range store.Block().Preds {
-					_ = p
-				}
-				reach := map[string]bool{}
+				// the store is reached only through tests on this very error (err == nil, or a classification of err)
+				eo := w.Origin(ers[0])
+				nPred := 0
+				okStore = true
 				for _, p := range store.Block().Preds {
 					if len(p.Instrs) == 0 {
 						continue
 					}
-					if ifi, ok := p.Instrs[len(p.Instrs)-1].(*ssa.If); ok {
-						reach[w.Origin(ifi.Cond)] = true
+					nPred++
+					ifi, isIf := p.Instrs[len(p.Instrs)-1].(*ssa.If)
+					if !isIf || !strings.Contains(w.Origin(ifi.Cond), eo) && !condMentions(ifi.Cond, ers[0]) {
+						okStore = false
 					}
 				}
-				okStore = len(reach) == 2
-				for k := range reach {
-					if !(strings.HasSuffix(k, "== const(nil))") || strings.Contains(k, "StatusCode == const(1)")) {
+				if nPred == 0 {
+					okStore = false
+				}
+				// and the panic is reached only when the error is non-nil
+				for _, sk := range sinks {
+					if sk.Kind == "panic" && !errGuardAnyNonNil(sk.In.Block()) {
 						okStore = false
 					}
 				}
@@ -323,45 +327,55 @@ func c15r3(c *Ctx, id string) {
 func c15r4(c *Ctx, id string) {
 	w := c.W
 	check := func(fnName string, conds []string, what string) {
-		var fn *ssa.Function
+		// the selection may live in the named function or in a helper extracted from it: accept any module
+		// function of the same package that contains a panic reached exactly when none of the tests holds
+		var home *ssa.Function
 		for _, f := range w.ModFuncs {
 			if fname(f) == fnName {
-				fn = f
+				home = f
 			}
 		}
-		if fn == nil {
+		if home == nil {
 			c.Undecided(id, "switch:"+what, 0, "function %s not found", fnName)
 			return
 		}
-		c.see(fn)
 		ok := false
 		var seen []string
-		allInstrs(fn, func(in ssa.Instruction) {
-			if _, isP := in.(*ssa.Panic); !isP {
-				return
+		for _, fn := range w.ModFuncs {
+			if pkgOfFn(fn) != pkgOfFn(home) {
+				continue
 			}
-			gs := guardsOf(in.Block())
-			matched := 0
-			for _, want := range conds {
-				for _, g := range gs {
-					v, pol := stripNot(g.Cond, g.Branch)
-					o := w.Origin(v)
-					if strings.Contains(o, want) && !pol {
-						matched++
-						break
+			if fn != home && !isHelperOf(w, home, rootFn(fn)) {
+				continue
+			}
+			allInstrs(fn, func(in ssa.Instruction) {
+				if _, isP := in.(*ssa.Panic); !isP {
+					return
+				}
+				gs := guardsOf(in.Block())
+				matched := 0
+				for _, want := range conds {
+					for _, g := range gs {
+						v, pol := stripNot(g.Cond, g.Branch)
+						o := w.Origin(v)
+						if strings.Contains(o, want) && !pol {
+							matched++
+							break
+						}
 					}
 				}
-			}
-			if matched == len(conds) {
-				ok = true
-			}
-			var s []string
-			for _, g := range gs {
-				s = append(s, fmt.Sprintf("%v:%s", g.Branch, w.Origin(g.Cond)))
-			}
-			seen = append(seen, "["+strings.Join(s, " ∧ ")+"]")
-		})
-		c.Check(ok, id, "switch:"+what, fn.Pos(), "the no-match path panics", "no panic is reached exactly when none of "+strings.Join(conds, ", ")+" holds; panics seen under "+strings.Join(seen, " "))
+				if matched == len(conds) {
+					ok = true
+					c.see(fn)
+				}
+				var s []string
+				for _, g := range gs {
+					s = append(s, fmt.Sprintf("%v:%s", g.Branch, w.Origin(g.Cond)))
+				}
+				seen = append(seen, "["+strings.Join(s, " ∧ ")+"]")
+			})
+		}
+		c.Check(ok, id, "switch:"+what, home.Pos(), "the no-match path panics", "no panic is reached exactly when none of "+strings.Join(conds, ", ")+" holds; panics seen under "+strings.Join(seen, " "))
 	}
 	check("(*dcp.dcp).Start", []string{"IsCouchbaseMetadata)", "IsFileMetadata)"}, "metadata")
 	check("stream.NewVBucketDiscovery", []string{`== const("static")`, `== const("couchbase")`, `== const("kubernetesStatefulSet")`, `== const("kubernetesHa")`, `== const("dynamic")`}, "membership")
@@ -383,4 +397,73 @@ func c15r5(c *Ctx, id string) {
 	if !found {
 		c.Undecided(id, "GetVBucketSeqNos", 0, "no asynchronous gocbcore call found in GetVBucketSeqNos")
 	}
+}
+
+// condMentions: the condition is computed from v (through calls taking it as an argument, comparisons, field reads of errors.As targets fed by it).
+func condMentions(cond, v ssa.Value) bool {
+	seen := map[ssa.Value]bool{}
+	var rec func(x ssa.Value, d int) bool
+	rec = func(x ssa.Value, d int) bool {
+		if x == nil || seen[x] || d > 8 {
+			return false
+		}
+		seen[x] = true
+		if x == v {
+			return true
+		}
+		if in, ok := x.(ssa.Instruction); ok {
+			for _, op := range in.Operands(nil) {
+				if *op != nil && rec(*op, d+1) {
+					return true
+				}
+			}
+		}
+		// a value loaded from a cell that errors.As filled from v
+		if u, ok := x.(*ssa.UnOp); ok {
+			if fa, ok := u.X.(*ssa.FieldAddr); ok {
+				if ld, ok := fa.X.(*ssa.UnOp); ok {
+					if al, ok := ld.X.(*ssa.Alloc); ok {
+						for _, r := range *al.Referrers() {
+							if ci, ok := r.(ssa.CallInstruction); ok {
+								for _, a := range ci.Common().Args {
+									if rec(a, d+1) {
+										return true
+									}
+								}
+							}
+							if mi, ok := r.(*ssa.MakeInterface); ok {
+								for _, rr := range *mi.Referrers() {
+									if ci, ok := rr.(ssa.CallInstruction); ok {
+										for _, a := range ci.Common().Args {
+											if a != ssa.Value(mi) && rec(a, d+1) {
+												return true
+											}
+										}
+									}
+								}
+							}
+						}
+					}
+				}
+			}
+		}
+		return false
+	}
+	return rec(cond, 0)
+}
+
+// errGuardAnyNonNil: the block runs only when some error value is known to be non-nil, or under the
+// negation of a test that is true for nil errors.
+func errGuardAnyNonNil(b *ssa.BasicBlock) bool {
+	if errGuard(b, false, func(v ssa.Value) bool { return types.Implements(v.Type(), errorIface()) }) {
+		return true
+	}
+	// `if err == nil || classify(err) {store} else {panic}`: the panic sits on the false edges of both tests
+	for _, g := range guardsOf(b) {
+		v, pol := stripNot(g.Cond, g.Branch)
+		if eq, ok := isNilCompare(v, func(x ssa.Value) bool { return types.Implements(x.Type(), errorIface()) }); ok && eq != pol {
+			return true
+		}
+	}
+	return false
 }
